@@ -120,6 +120,23 @@ pub fn check_number(n: &FeelNumber, expected: Option<&(bool, String, String)>, o
   if canon_plain(&js).as_ref() != Some(&canon) {
     return Some((format!("json-wrong-value:{}", class(canon.0, &canon)), format!("{} renders in JSON as `{}` but prints as `{}`", origin, short(&js), short(&text))));
   }
+  // the number as a value, as an item of a list and as an entry of a context (the rendering the service answers with)
+  {
+    use dmntk_feel::values::Values;
+    let v = Value::Number(*n);
+    let alone = v.jsonify();
+    let mut c = dmntk_feel::context::FeelContext::default();
+    c.set_entry(&dmntk_feel::Name::from("k"), v.clone());
+    let in_list = Value::List(Values::new(vec![v.clone(), v])).jsonify();
+    let in_ctx = Value::Context(c).jsonify();
+    let strip = |s: &str| s.chars().filter(|ch| !ch.is_whitespace()).collect::<String>();
+    if alone != js || strip(&in_list) != format!("[{},{}]", js, js) || strip(&in_ctx) != format!("{{\"k\":{}}}", js) {
+      return Some((
+        format!("value-json-differs:{}", class(canon.0, &canon)),
+        format!("{} renders as the number `{}` but as a value `{}`, in a list `{}`, in a context `{}`", origin, short(&js), short(&alone), short(&in_list), short(&in_ctx)),
+      ));
+    }
+  }
   None
 }
 
